@@ -811,4 +811,19 @@ impl Spec {
         self.all_items(&mut items);
         items.into_iter().find(|i| i.id == id)
     }
+
+    /// the command with this id, at any level
+    pub fn find_cmd(&self, id: Id) -> Option<&CmdSpec> {
+        let mut cmds = Vec::new();
+        self.level_cmds(&mut cmds);
+        for c in cmds {
+            if c.id == id {
+                return Some(c);
+            }
+            if let Some(x) = c.opts.root.find_cmd(id) {
+                return Some(x);
+            }
+        }
+        None
+    }
 }
